@@ -990,7 +990,7 @@ func (e *Engine) report(v *Violation) {
 	x.mu.Lock()
 	defer x.mu.Unlock()
 	key := v.Kind + "|" + v.Msg
-	if x.vioKeys[key] && len(x.Violations) >= 3 {
+	if x.vioKeys[key] && len(x.Violations) >= 40 {
 		// keep at most a few per distinct message
 		n := 0
 		for _, o := range x.Violations {
@@ -998,7 +998,7 @@ func (e *Engine) report(v *Violation) {
 				n++
 			}
 		}
-		if n >= 3 {
+		if n >= 40 {
 			x.Notes["violations-suppressed: "+key]++
 			return
 		}
